@@ -1,0 +1,16 @@
+//go:build verif
+
+package clientip
+
+import "net"
+
+// VerifDefaultRanges exposes the built-in range tables to the verification harness
+// (only with the "verif" build tag).
+func VerifDefaultRanges() map[string][]net.IPNet {
+	return map[string][]net.IPNet{
+		"privateAndLocal": append([]net.IPNet(nil), privateAndLocalRanges...),
+		"private":         append([]net.IPNet(nil), privateRange...),
+		"loopback":        append([]net.IPNet(nil), loopbackRanges...),
+		"linkLocal":       append([]net.IPNet(nil), linkLocalRanges...),
+	}
+}
